@@ -105,6 +105,238 @@ pub fn spec_for(prop: &str, tier: &str) -> Option<Spec> {
                 digest_each: false,
                 want_listing: false,
                 isolate: false,
+                owns_if: None,
+                diff_cfg: None,
+            })
+        }
+        "C03" => {
+            let (half, fill, bs) = (s.half, s.fill, s.bs);
+            // product mode: layouts (roots) x cursor positions (depth-1 reads) x budgets
+            let menu: Vec<usize> = vec![0, 1, 127, 128, 129, half, fill];
+            let mut roots: Vec<Vec<Op>> = vec![];
+            let maxlen = if thorough { 4 } else { 2 };
+            let mut cur: Vec<Vec<usize>> = vec![vec![]];
+            for _ in 0..maxlen {
+                let mut nxt = vec![];
+                for l in cur.iter() {
+                    for m in menu.iter() {
+                        let mut x = l.clone();
+                        x.push(*m);
+                        nxt.push(x);
+                    }
+                }
+                for l in nxt.iter() {
+                    roots.push(l.iter().map(|len| Op::Append { t: 0, len: *len }).collect());
+                }
+                cur = nxt;
+            }
+            // sealed block(s) + tail layouts
+            roots.push(vec![Op::Append { t: 0, len: half }, Op::Append { t: 0, len: half }, Op::Append { t: 0, len: 1 }]);
+            roots.push(vec![
+                Op::Append { t: 0, len: 127 },
+                Op::Append { t: 0, len: 129 },
+                Op::Append { t: 0, len: half },
+                Op::Append { t: 0, len: half },
+                Op::Append { t: 0, len: fill },
+                Op::Append { t: 0, len: 0 },
+                Op::Append { t: 0, len: 128 },
+            ]);
+            roots.push(vec![Op::Batch { t: 0, lens: vec![0, 0, 0, 0, 0, 0, 0, 0, 0] }, Op::Append { t: 0, len: 128 }]);
+            // entry-cap family (2000): a topic holding 1999 / 2000 / 2001 / 4001 entries
+            for extra in [0usize, 1, 2] {
+                let mut r = vec![Op::BatchN { t: 0, n: 1999, len: 1 }];
+                for _ in 0..extra {
+                    r.push(Op::Append { t: 0, len: 0 });
+                }
+                roots.push(r);
+            }
+            if thorough {
+                roots.push(vec![Op::BatchN { t: 0, n: 2000, len: 1 }, Op::BatchN { t: 0, n: 2000, len: 0 }, Op::Append { t: 0, len: 1 }]);
+            }
+            let budgets: Vec<usize> = vec![
+                0, 1, 127, 128, 129, 255, 256, 257, 383, 384, 385, half - 1, half, half + 1, half + 256, bs, 4 * bs, usize::MAX,
+            ];
+            Some(Spec {
+                prop: "C03",
+                cfgs: if thorough {
+                    vec![strict_fd(), Config::new(Consistency::Strict, Backend::Mmap), Config::new(Consistency::Alo(2), Backend::Fd)]
+                } else {
+                    vec![strict_fd()]
+                },
+                roots,
+                alphabet: Box::new(move |_m: &Model, h: &[Op]| {
+                    let mut v = vec![];
+                    // position the cursor with single reads, then probe every budget
+                    let reads_so_far = h.iter().filter(|o| matches!(o, Op::BatchRead { .. })).count();
+                    if reads_so_far == 0 {
+                        v.push(Op::ReadNext { t: 0, ckpt: true });
+                    }
+                    for b in budgets.iter() {
+                        v.push(Op::BatchRead { t: 0, budget: *b, ckpt: true, start: None });
+                        v.push(Op::BatchRead { t: 0, budget: *b, ckpt: false, start: None });
+                    }
+                    v
+                }),
+                max_depth: if thorough { 3 } else { 2 },
+                owned: vec!["read.cap", "read.budget", "read.empty", "read.panic", "read.err", "crash"],
+                dedup: true,
+                time_cap_s: if thorough { 1100.0 } else { 50.0 },
+                extra: None,
+                digest_each: false,
+                want_listing: false,
+                isolate: false,
+                owns_if: None,
+                diff_cfg: None,
+            })
+        }
+        "C15" | "C06" | "C04" | "C16" => {
+            let (half, over, onehalf, max_alloc) = (s.half, s.over, s.onehalf, s.max_alloc);
+            let prop_s: &'static str = match prop {
+                "C15" => "C15",
+                "C06" => "C06",
+                "C04" => "C04",
+                _ => "C16",
+            };
+            let with_restarts = prop != "C04" || true;
+            let max_restarts = if thorough { 3 } else { 2 };
+            let cfgs = match prop {
+                "C15" => vec![strict_fd(), Config::new(Consistency::Alo(2), Backend::Mmap)],
+                "C06" => {
+                    if thorough {
+                        vec![
+                            strict_fd(),
+                            Config::new(Consistency::Strict, Backend::Mmap),
+                            Config::new(Consistency::Alo(1), Backend::Fd),
+                            Config::new(Consistency::Alo(3), Backend::Fd),
+                        ]
+                    } else {
+                        vec![strict_fd(), Config::new(Consistency::Alo(3), Backend::Mmap)]
+                    }
+                }
+                "C04" => vec![strict_fd(), Config::new(Consistency::Strict, Backend::Mmap)],
+                _ => vec![strict_fd(), Config::new(Consistency::Alo(2), Backend::Fd)],
+            };
+            let failing = prop != "C06" || true;
+            Some(Spec {
+                prop: prop_s,
+                cfgs,
+                roots: vec![
+                    vec![],
+                    vec![Op::Append { t: 0, len: half }, Op::Append { t: 0, len: half }, Op::Append { t: 0, len: 128 }],
+                ],
+                alphabet: Box::new(move |m: &Model, _h: &[Op]| {
+                    let mut v = vec![
+                        Op::Append { t: 0, len: 1 },
+                        Op::Append { t: 0, len: half },
+                        Op::Append { t: 0, len: over },
+                        Op::Append { t: 1, len: half },
+                        Op::Batch { t: 0, lens: vec![half, half, 127] },
+                        Op::ReadNext { t: 0, ckpt: true },
+                        Op::BatchRead { t: 0, budget: 257, ckpt: true, start: None },
+                        Op::BatchRead { t: 0, budget: usize::MAX, ckpt: true, start: None },
+                    ];
+                    if prop_s != "C04" {
+                        v.push(Op::ReadNext { t: 0, ckpt: false });
+                        v.push(Op::BatchRead { t: 0, budget: usize::MAX, ckpt: false, start: None });
+                        v.push(Op::BatchRead { t: 0, budget: 300, ckpt: true, start: Some(0) });
+                        v.push(Op::ReadNext { t: 1, ckpt: true });
+                    }
+                    if thorough {
+                        v.push(Op::Append { t: 0, len: onehalf });
+                        v.push(Op::Append { t: 0, len: 0 });
+                    }
+                    if failing {
+                        v.push(Op::Append { t: 0, len: max_alloc });
+                        v.push(Op::BatchN { t: 0, n: 2001, len: 0 });
+                        v.push(Op::Batch { t: 0, lens: vec![] });
+                        if prop_s == "C04" {
+                            v.push(Op::Append { t: 2, len: max_alloc }); // first op on a new topic fails
+                            v.push(Op::Batch { t: 2, lens: vec![] });
+                            v.push(Op::AppendLongTopic { name_len: 300, len: 8, batch: false });
+                            v.push(Op::AppendLongTopic { name_len: 300, len: 8, batch: true });
+                            v.push(Op::Batch { t: 0, lens: vec![1, max_alloc] });
+                            v.push(Op::ReadNext { t: 2, ckpt: true });
+                        }
+                    }
+                    if with_restarts && m.restarts < max_restarts {
+                        v.push(Op::Reopen);
+                        v.push(Op::Restart);
+                    }
+                    v
+                }),
+                max_depth: if thorough { 5 } else { 3 },
+                owned: match prop {
+                    "C15" => vec!["count", "crash"],
+                    "C06" => vec!["read.order", "read.empty", "read.err", "read.panic", "reopen.err", "reopen.panic", "count", "crash"],
+                    "C04" => vec!["read.order", "read.empty", "read.err", "read.panic", "count", "crash", "append.accepted_oversize", "append.accepted_longtopic"],
+                    _ => vec![],
+                },
+                dedup: true,
+                time_cap_s: if thorough { 1100.0 } else { 50.0 },
+                extra: None,
+                digest_each: false,
+                want_listing: false,
+                isolate: false,
+                owns_if: match prop {
+                    "C06" => Some(Box::new(|_pre: &Model, ops: &[Op]| ops.iter().any(|o| matches!(o, Op::Reopen | Op::Restart)))),
+                    "C04" => Some(Box::new(|pre: &Model, ops: &[Op]| {
+                        // a failed append happened before, or the failing step is itself an append-type op
+                        pre.failed_appends > 0
+                            || matches!(
+                                ops.last(),
+                                Some(Op::Append { .. } | Op::Batch { .. } | Op::BatchN { .. } | Op::AppendLongTopic { .. })
+                            )
+                    })),
+                    _ => None,
+                },
+                diff_cfg: if prop == "C16" {
+                    Some(Box::new(|c: &Config| {
+                        let mut d = c.clone();
+                        d.backend = match c.backend {
+                            Backend::Fd => Backend::Mmap,
+                            Backend::Mmap => Backend::Fd,
+                        };
+                        d
+                    }))
+                } else {
+                    None
+                },
+            })
+        }
+        "C17" => {
+            let mut c1 = strict_fd();
+            c1.gate_persist = true;
+            let mut c2 = Config::new(Consistency::Alo(2), Backend::Mmap);
+            c2.gate_persist = true;
+            Some(Spec {
+                prop: "C17",
+                cfgs: if thorough { vec![c1, c2] } else { vec![c1] },
+                roots: vec![vec![]],
+                alphabet: Box::new(move |m: &Model, _h: &[Op]| {
+                    let mut v = vec![
+                        Op::Append { t: 0, len: 1 },
+                        Op::MarkClean { t: 0 },
+                        Op::MarkDirty { t: 0 },
+                        Op::Append { t: 1, len: 1 },
+                        Op::MarkClean { t: 1 },
+                        Op::PersistTick,
+                    ];
+                    if m.restarts < if thorough { 3 } else { 2 } {
+                        v.push(Op::Reopen);
+                        v.push(Op::Restart);
+                    }
+                    v
+                }),
+                max_depth: if thorough { 7 } else { 5 },
+                owned: vec!["clean", "crash", "reopen.err", "reopen.panic"],
+                dedup: true,
+                time_cap_s: if thorough { 1100.0 } else { 50.0 },
+                extra: None,
+                digest_each: false,
+                want_listing: false,
+                isolate: false,
+                owns_if: None,
+                diff_cfg: None,
             })
         }
         _ => None,
